@@ -50,7 +50,7 @@ def run(ck):
     if not L.ok:
         ck.correspondence_broken("llgo-build", L.buildlog[-2000:])
         return ck.finish()
-    nprog = {"quick": 3, "thorough": 24}[ck.tier]
+    nprog = {"quick": 3, "thorough": 14}[ck.tier]
     nfun = {"quick": 14, "thorough": 20}[ck.tier]
     lines_total = 0
     funcs_total = 0
@@ -169,7 +169,7 @@ def run(ck):
     hout = os.path.join(ck.work, "infos.jsonl")
     rc, log = ck.go_test_overlay("cl/blocks", {"zz_verif_test.go": os.path.join(H, "harness", "infos_verif_test.go")},
                                  env=dict(e2e.tc_env(L.cache), VERIF_SRC=os.path.join(ck.work, "p0", "main.go"), VERIF_OUT=hout,
-                                          VERIF_N=str({"quick": 1500, "thorough": 30000}[ck.tier])),
+                                          VERIF_N=str({"quick": 1500, "thorough": 20000}[ck.tier])),
                                  tags="llvm14,verif", extra_overlay=json.load(open(L.ov))["Replace"])
     ncfg = 0
     if rc != 0 or not os.path.exists(hout):
